@@ -285,7 +285,7 @@ pub fn exhaustive_plan(ctx: &Ctx, thorough: bool) -> (u64, String) {
     (
         total + probe_count() + mega_count(),
         format!(
-            "every peek/next history (0..2 peeks before each next, 7 after-StreamEnd tails) of {} streams with up to {} events; plus {} large probe streams ({:?} at {:?} bytes x 7 back-referring tail documents x 3 clients, and block nests of 255..70 000 levels x 4 openers x 3 clients; an anchor and its alias 1..65 536 documents apart x 3 clients; every one of the 54 regular input families at 700 kB (thorough: and 2.8 MB) x 3 clients)",
+            "every peek/next history (0..2 peeks before each next, 7 after-StreamEnd tails) of {} streams with up to {} events; plus {} large probe streams ({:?} at {:?} bytes x 7 back-referring tail documents x 3 clients, and block nests of 255..70 000 levels x 4 openers x 3 clients; an anchor and its alias 1..65 536 documents apart x 3 clients; every one of the regular input families of the instruction clock at 700 kB (thorough: and 2.8 MB) x 3 clients)",
             t.len(),
             max_m,
             probe_count(),
